@@ -416,12 +416,28 @@ func (spt *Tracker) Recover(ctx context.Context, c cid.Cid) (*api.PinInfo, error
 	return spt.recoverWithPinInfo(ctx, spt.Status(ctx, c))
 }
 
+// pinFromState returns the pin as recorded in the shared state, so that it
+// can be re-pinned with its own options (mode, name, origins...). When it
+// cannot be obtained, it returns a default pin for the Cid.
+func (spt *Tracker) pinFromState(ctx context.Context, c cid.Cid) *api.Pin {
+	st, err := spt.getState(ctx)
+	if err != nil {
+		logger.Warn(err)
+		return api.PinCid(c)
+	}
+	pin, err := st.Get(ctx, c)
+	if err != nil || pin == nil {
+		return api.PinCid(c)
+	}
+	return pin
+}
+
 func (spt *Tracker) recoverWithPinInfo(ctx context.Context, pi *api.PinInfo) (*api.PinInfo, error) {
 	var err error
 	switch pi.Status {
 	case api.TrackerStatusPinError, api.TrackerStatusUnexpectedlyUnpinned:
 		logger.Infof("Restarting pin operation for %s", pi.Cid)
-		err = spt.enqueue(ctx, api.PinCid(pi.Cid), optracker.OperationPin)
+		err = spt.enqueue(ctx, spt.pinFromState(ctx, pi.Cid), optracker.OperationPin)
 	case api.TrackerStatusUnpinError:
 		logger.Infof("Restarting unpin operation for %s", pi.Cid)
 		err = spt.enqueue(ctx, api.PinCid(pi.Cid), optracker.OperationUnpin)
